@@ -52,7 +52,7 @@ pub fn check(run: &CellRun) -> Vec<(String, String)> {
 }
 
 /// A handle handed back after an I/O fault is still cached data: for every cell that promotes a
-/// read-only hit, fills a miss or replaces a value, each call of the operation fails in turn; whatever handle comes back must be
+/// read-only hit, fills a miss or replaces a value, and for every lookup that hits, each call of the operation fails in turn; whatever handle comes back must be
 /// read-only, at offset 0 and read as the whole value.
 fn promotion_fault_cases(cell: &Cell, run: &CellRun, rep: &mut Report) {
     use crate::props::c18::{plausible, FailAt};
@@ -68,7 +68,9 @@ fn promotion_fault_cases(cell: &Cell, run: &CellRun, rep: &mut Report) {
         && cell.pop == 0
         && m.published
         && (matches!(m.first, Some(f) if f >= 1) || cell.contents.len() <= 2);
-    if !publishes {
+    // and every plain lookup that hits (the handle is the entry itself, stamped as used on the way out)
+    let looks_up = cell.op == MOp::Get && m.first.is_some() && cell.checker == 0 && cell.umask == 0o022 && cell.contents.len() <= 2;
+    if !publishes && !looks_up {
         return;
     }
     for (k, ev) in run.trace.iter().enumerate() {
